@@ -563,11 +563,23 @@ Section Search.
     - apply Qle_shift_div_r; [assumption|]. lra.
   Qed.
 
-  Lemma sumq_div l s : ~ s == 0 -> sumq (map (fun x => x / s) l) == sumq l / s.
+  Lemma sumq_div l s : ~ s == 0 -> sumq (map (fun x => Qred (x / s)) l) == sumq l / s.
   Proof.
-    intros Hs. induction l as [|a t IH]; simpl.
-    - field. assumption.
-    - rewrite IH. field. assumption.
+    intros Hs. induction l as [|a t IH].
+    - simpl. field. assumption.
+    - unfold sumq in *. cbn [map fold_right]. rewrite Qred_correct, IH. field. assumption.
+  Qed.
+
+  (* what renorm computes: every entry divided by the sum of the entries *)
+  Theorem renorm_spec l :
+    length (renorm l) = length l /\
+    forall i x, nth_error l i = Some x ->
+                exists y, nth_error (renorm l) i = Some y /\ y == x / sumq l.
+  Proof.
+    unfold renorm. split; [apply map_length|].
+    intros i x H. rewrite nth_error_map, H.
+    exists (Qred (x / Qred (sumq l))). split; [reflexivity|].
+    rewrite !Qred_correct. reflexivity.
   Qed.
 
   Lemma sumq_pos l c : 0 < c -> l <> [] -> Forall (fun q => c <= q) l -> 0 < sumq l.
@@ -592,11 +604,14 @@ Section Search.
     { unfold l, Mcts.live in *. destruct (accepted p raw); [discriminate|]. simpl. discriminate. }
     pose proof (accepted_prior_ge p raw) as Hge. fold l in Hge.
     pose proof (sumq_pos l cutoff Hc Hne Hge) as Hpos.
+    assert (Hs' : Qred (sumq l) == sumq l) by apply Qred_correct.
     unfold renorm. fold l. repeat split.
     - apply Forall_forall. intros x Hx. apply in_map_iff in Hx. destruct Hx as (y & E & Hy). subst x.
       eapply Forall_forall in Hge; [|eassumption].
-      apply Qlt_shift_div_l; [assumption|]. lra.
-    - rewrite sumq_div by lra. field. lra.
+      assert (E : Qred (y / Qred (sumq l)) == y / sumq l) by (rewrite !Qred_correct; reflexivity).
+      assert (Hz : 0 < y / sumq l) by (apply Qlt_shift_div_l; [assumption|]; lra).
+      lra.
+    - rewrite sumq_div by lra. rewrite Hs'. field. lra.
     - rewrite map_length. unfold l. rewrite map_length.
       rewrite <- (map_length c_key), <- Hkeys, map_length. reflexivity.
   Qed.
